@@ -95,7 +95,7 @@ def unit_ret(chk, prog, only=None):
             continue
         f = prog.func(F + key)
         chk.touch(f)
-        fa = Facts(f, prog, unit_params=unit_params, unit_summaries=summ).analyse()
+        fa = Facts(f, prog, unit_params=unit_params, unit_summaries=summ, inline_private=True).analyse()
         seen = 0
         ctx = return_context(f)
         for r in fa.ret_info:
